@@ -699,25 +699,28 @@ func sigDeleteLookup(c fw.Case, out []string, msg string) bool {
 	return strings.HasPrefix(msg, "refusal: accepted although not-a-model-path: delete")
 }
 
-// sigLimitDistinct: the limit counts distinct update paths, the request repeats one.
+// sigLimitDistinct: the limit counts the entries of the per-target update map, and the request's
+// operations collapse to fewer entries than it has operations (a repeated update path, or a JSON
+// member landing on the path of another update).
 func sigLimitDistinct(c fw.Case, out []string, msg string) bool {
 	if !strings.HasPrefix(msg, "refusal: accepted although limit-operations") {
 		return false
 	}
-	return setAt(c, func(spec nbenv.Spec, rq *nbwire.Req) bool {
-		seen := map[string]bool{}
-		for _, u := range append(append([]nbwire.Update{}, rq.Update...), rq.Replace...) {
-			k := nbwire.EncPath(u.Path)
-			if u.Path != nil {
-				k = utils.StrPath(nbwire.GPath(u.Path))
-			}
-			if seen[k] {
-				return true
-			}
-			seen[k] = true
+	for i, ln := range c.Script {
+		toks := strings.Fields(ln)
+		if len(toks) == 0 || toks[0] != "nb.set" || i >= len(out) {
+			continue
 		}
-		return false
-	})
+		rq, ok := nbwire.DecReq(toks[1:])
+		if !ok {
+			continue
+		}
+		ans := parseAns(out[i])
+		if ans.accepted && len(ans.pairs) < len(opsOf(rq)) {
+			return true
+		}
+	}
+	return false
 }
 
 // sigAncestorKey: a key leaf equal to a same-named key of an ancestor list.
@@ -816,9 +819,12 @@ var Prop = &fw.Prop{
 		"plus differential lines for RemovePathIndices, AnonymizePathIndices, ExtractIndexNames, IsPathValid, CheckPathIndexIsValid, FindPathFromModel; plus the enumeration of every prefix/path split of every model path. Non-trivial = a mixed valid/invalid request or a prefix is present.",
 	Quick: 900, Thorough: 7000, Workers: 12,
 	Gen: gen, Enumerate: enumerate,
-	NewReal:     func() fw.Real { return nbreal.New() },
-	Monitor:     monitor,
-	Shrink:      shrinkCase,
+	NewReal: func() fw.Real { return nbreal.New() },
+	Monitor: monitor,
+	Shrink:  shrinkCase,
+	// the twin keeps its state between cases: the shrinker must keep the nb.env line, so line
+	// dropping is done by shrinkCase (whole requests with their observation lines)
+	FixedLayout: true,
 	RealOnly:    func(line string) bool { return line == "obs" },
 	OutcomeTags: outcomeTags,
 	Sigs: map[string]func(fw.Case, []string, string) bool{
